@@ -391,6 +391,9 @@ def matpb_mismatch(case):
 
 
 def replay_case(ctx, case):
+    if case.get('superpos'):
+        import revchecks
+        return revchecks.op_superposition_fails(case)
     if 'matpb' in case:
         return matpb_mismatch(case)
     if 'pb' in case:
@@ -423,6 +426,18 @@ def run(ctx):
             do(make_case(rng, ctx.tier, prog=p), 'single-op')
     for i in range(250 if ctx.tier == 'quick' else 4000):
         do(make_case(rng, ctx.tier), 'generated')
+    # every registered operation with a second consumer of its operands recorded after it: adjoints accumulate
+    import ops, revchecks
+    for name in revchecks.reversible_ops(for_truncation=False):
+        for k in range(2 if ctx.tier == 'quick' else 25):
+            case = ops.gen_case(rng, ctx.tier, name, P=rng.choice([1, 2]), D=rng.randint(1, 3))
+            case['seed'] = rng.randrange(1 << 30)
+            case['superpos'] = True
+            ctx.evaluations += 1
+            ctx.count('superposition')
+            f = revchecks.op_superposition_fails(case)
+            if f:
+                ctx.report(case, 'failure', f)
     # matrix pullback kernels vs the formulas of Proofs/MatPullback.lean
     for i in range(120 if ctx.tier == 'quick' else 1500):
         case = make_matpb_case(rng, ctx.tier)
